@@ -334,12 +334,17 @@ class Unit(HookHost):
 
         def __setitem__(self, i: Union[SupportsIndex, slice], value: "Unit"):
             current = self[i]
-            if isinstance(current, list):
+            if isinstance(i, slice):
+                value = list(value)
+                super().__setitem__(i, value)
                 for u in current:
                     u.parent = None
+                for u in value:
+                    u.parent = self._owner()
             else:
+                super().__setitem__(i, value)
                 current.parent = None
-            return super().__setitem__(i, value)
+                value.parent = self._owner()
 
         def __delitem__(self, i: Union[SupportsIndex, slice]):
             current = self[i]
